@@ -297,9 +297,9 @@ mod verif_client {
     //@ family c01_handler props=C01 mode=panics-ok mod=verif_client target=client must_cover=COVER:response-accepted timeout=900
     //@ harness c01_sigs_classic_d0 tier=quick shape="classic, single-request batch (empty path); both signatures, nonce, midpoint, window symbolic; honest root and window"
     c01_handler!(c01_sigs_classic_d0, 64, 64, 0, Version::Google, 0, 12);
-    //@ harness c01_sigs_ietf_d1 tier=quick shape="IETF, batch of 2 (one path element); signatures, nonce, path, index symbolic" required=no
+    //@ harness c01_sigs_ietf_d1 tier=thorough shape="IETF, batch of 2 (one path element); signatures, nonce, path, index symbolic" required=no
     c01_handler!(c01_sigs_ietf_d1, 32, 32, 32, Version::RfcDraft13, 0, 12);
-    //@ harness c01_root_classic_d1 tier=quick shape="classic, one path element; ROOT, path, index, nonce symbolic (any forged proof)" required=no
+    //@ harness c01_root_classic_d1 tier=thorough shape="classic, one path element; ROOT, path, index, nonce symbolic (any forged proof)" required=no
     c01_handler!(c01_root_classic_d1, 64, 64, 64, Version::Google, 1, 12);
     //@ harness c01_window_classic_d0 tier=quick shape="classic; MINT, MIDP, MAXT arbitrary u64"
     c01_handler!(c01_window_classic_d0, 64, 64, 0, Version::Google, 2, 12);
@@ -314,14 +314,14 @@ mod verif_client {
     /// signed midpoint.  LEAF: what the protocol hashes for this request (classic: the nonce;
     /// IETF: the whole request packet, here RL symbolic bytes standing for it).
     fn honest_body<const NL: usize, const RL: usize, const W: usize, const PL: usize>(version: Version) {
-        honest_then::<NL, RL, W, PL>(version, false)
+        honest_then::<NL, RL, W, PL>(version, false, false)
     }
 
     /// `then_forged`: after the honest response has been accepted, the same process is shown a
     /// second response (for a fresh nonce) that re-uses the genuine CERT.SIG bytes but carries the
     /// attacker's key in DELE and is signed by the attacker: the acceptance conditions must hold
     /// for the second response on its own (multi-request run, `-n 2`).
-    fn honest_then<const NL: usize, const RL: usize, const W: usize, const PL: usize>(version: Version, then_forged: bool) {
+    fn honest_then<const NL: usize, const RL: usize, const W: usize, const PL: usize>(version: Version, then_forged: bool, sym_window: bool) {
         use dalek::Signer;
         dalek::model_reset();
         // the keys of this scenario are genuine public keys (derived from seeds): they parse
@@ -333,6 +333,9 @@ mod verif_client {
         let indx = vany_u32();
         vassume((indx as usize) < (1usize << (PL / W)));
         let midp = vany_u64();
+        // sym_window: a correctly signed delegation whose window is arbitrary (a responder whose
+        // delegated key is used outside its validity window)
+        let (mint, maxt) = if sym_window { (vany_u64(), vany_u64()) } else { (0u64, u64::MAX) };
         let lt_seed: [u8; 32] = vany_bytes::<32>();
         let ol_seed: [u8; 32] = vany_bytes::<32>();
         let lt = dalek::SigningKey::from_bytes(&lt_seed);
@@ -346,11 +349,11 @@ mod verif_client {
         };
         let mut dele_msg = RtMessage::with_capacity(3);
         dele_msg.add_field(Tag::PUBK, &ol_pk).unwrap();
-        dele_msg.add_field(Tag::MINT, &0u64.to_le_bytes()).unwrap();
-        dele_msg.add_field(Tag::MAXT, &u64::MAX.to_le_bytes()).unwrap();
+        dele_msg.add_field(Tag::MINT, &mint.to_le_bytes()).unwrap();
+        dele_msg.add_field(Tag::MAXT, &maxt.to_le_bytes()).unwrap();
         let dele = dele_msg.encode().unwrap();
         let mut srep_msg = RtMessage::with_capacity(5);
-        let radi: u32 = if version == Version::Google { 5_000_000 } else { 5 };
+        let radi: u32 = if sym_window { vany_u32() } else if version == Version::Google { 5_000_000 } else { 5 };
         if version == Version::RfcDraft13 {
             srep_msg.add_field(Tag::VER, version.wire_bytes()).unwrap();
         }
@@ -389,12 +392,13 @@ mod verif_client {
         let cert = map_of(vec![(Tag::SIG, cert_sig.to_vec()), (Tag::DELE, dele.clone())]);
         let dele_map = map_of(vec![
             (Tag::PUBK, ol_pk.to_vec()),
-            (Tag::MINT, 0u64.to_le_bytes().to_vec()),
-            (Tag::MAXT, u64::MAX.to_le_bytes().to_vec()),
+            (Tag::MINT, mint.to_le_bytes().to_vec()),
+            (Tag::MAXT, maxt.to_le_bytes().to_vec()),
         ]);
         let h = mk_handler(version, lt_pk.to_vec(), msg, srep_map, cert, dele_map, nonce.to_vec(), request.to_vec());
         let out = h.extract_time();
         vcover!(true, "COVER:honest-response-accepted");
+        vassert!(mint <= midp && midp <= maxt, "VERIF:C01:accepted-only-if-midpoint-inside-delegation-window");
         vassert!(out.verified, "VERIF:C03:honest-response-reported-verified");
         vassert!(out.midpoint == midp, "VERIF:C03:reported-midpoint-is-the-signed-midpoint");
         vassert!(out.radius == radi, "VERIF:C03:reported-radius-is-the-signed-radius");
@@ -477,13 +481,31 @@ mod verif_client {
     #[cfg_attr(kani, kani::stub(<roughenough::Error as std::convert::From<std::io::Error>>::from, crate::verif_client::stub_error_from_io))]
     #[cfg_attr(not(kani), test)]
     fn c01_genuine_then_spliced_classic() {
-        honest_then::<64, 8, 64, 0>(Version::Google, true);
+        honest_then::<64, 8, 64, 0>(Version::Google, true, false);
+    }
+
+    //@ family c01_window_signed props=C01 mode=panics-ok mod=verif_client target=client must_cover=COVER:honest-response-accepted timeout=900
+    //@ harness c01_window_signed_classic tier=quick shape="classic: genuinely signed response whose delegation window, midpoint and radius are arbitrary"
+    #[cfg_attr(kani, kani::proof)]
+    #[cfg_attr(kani, kani::unwind(12))]
+    #[cfg_attr(kani, kani::stub(<roughenough::Error as std::convert::From<std::io::Error>>::from, crate::verif_client::stub_error_from_io))]
+    #[cfg_attr(not(kani), test)]
+    fn c01_window_signed_classic() {
+        honest_then::<64, 8, 64, 0>(Version::Google, false, true);
+    }
+    //@ harness c01_window_signed_ietf tier=thorough shape="IETF: genuinely signed response whose delegation window, midpoint and radius are arbitrary"
+    #[cfg_attr(kani, kani::proof)]
+    #[cfg_attr(kani, kani::unwind(12))]
+    #[cfg_attr(kani, kani::stub(<roughenough::Error as std::convert::From<std::io::Error>>::from, crate::verif_client::stub_error_from_io))]
+    #[cfg_attr(not(kani), test)]
+    fn c01_window_signed_ietf() {
+        honest_then::<32, 8, 32, 0>(Version::RfcDraft13, false, true);
     }
 
     //@ family c03_honest props=C03 mode=strict mod=verif_client target=client must_cover=COVER:honest-response-accepted timeout=900
     //@ harness c03_honest_classic_d0 tier=quick shape="classic, single-request batch; nonce, midpoint, both key seeds symbolic"
     c03_honest!(c03_honest_classic_d0, 64, 8, 64, 0, Version::Google, 12);
-    //@ harness c03_honest_classic_d1 tier=quick shape="classic, batch of 2 (either position): path element, index symbolic" required=no
+    //@ harness c03_honest_classic_d1 tier=thorough shape="classic, batch of 2 (either position): path element, index symbolic" required=no
     c03_honest!(c03_honest_classic_d1, 64, 8, 64, 64, Version::Google, 12);
     //@ harness c03_honest_ietf_d0 tier=quick shape="IETF, single-request batch; leaf = request packet (8 symbolic bytes stand for it)"
     c03_honest!(c03_honest_ietf_d0, 32, 8, 32, 0, Version::RfcDraft13, 12);
